@@ -85,6 +85,11 @@ type trInFlow struct {
 }
 
 func (f *trInFlow) newLimit(n uint32) uint32 {
+	if n <= f.limit {
+		// The connection window never shrinks: a limit configured above the
+		// current BDP estimate stays in effect and no window update is due.
+		return 0
+	}
 	d := n - f.limit
 	f.limit = n
 	f.updateEffectiveWindowSize()
